@@ -36,6 +36,14 @@ def check_pair(ctx, rule: str, relpath: str, cname: str, wname: str, rname: str,
     rf = [f for f, _c, _t, _o, _s in unpacks]
     common = [f for f in dict.fromkeys(wf) if f in rf]
     if not common:
+        merged = _merge_writer(prog, cls, w, [f for f, _c, _t, _o, _s in unpacks])
+        if merged is not None:
+            fmt, virt, k = merged
+            packs = [(fmt, virt, w)]
+            wf = [fmt]
+            common = [fmt]
+            chk.report(f"{rule}: {construct}: the writer emits the reader's layout {fmt} in several packs" + (f" (a loop of {k} iterations fixed by the layout size)" if k else ""))
+    if not common:
         chk.bad(rule, construct, f"writer packs {sorted(set(wf))} but reader unpacks {sorted(set(rf))}", "writer and reader must use the same struct layout", A.loc(relpath, w.node))
         return 0
     for fmt in common:
@@ -57,6 +65,57 @@ def check_pair(ctx, rule: str, relpath: str, cname: str, wname: str, rname: str,
                 named = sum(1 for s in res.w if s.kind in ("attr", "len"))
                 chk.ok(rule, f"{construct} [{fmt}] #{n}", f"{len(res.w)} positions: arity ok, no duplicate source, no swap, no zero-read, tags agree ({named} named fields; W={res.w} R={res.r})"[:400])
     return n
+
+
+def _merge_writer(prog, cls, w, reader_formats):
+    """The writer may emit one reader layout in several packs that are concatenated in source order, some of them inside one loop
+    (`for word in words: out += pack("<2H", word, 0)`).  Returns (canonical format, virtual pack call, loop count) when the packs,
+    with the loop part repeated k times, spell exactly one of the reader's formats."""
+    raw = [(f, c, o) for f, c, o in packsym.writer_layouts(prog, cls, w) if o is w and getattr(c, "lineno", None) is not None and isinstance(getattr(c, "_parent", None), ast.AST)]
+    raw = [(f, c) for f, c, _o in raw if struct_items(f) is not None and f and f[0] in "<>!="]
+    if len(raw) < 2 or len({f[0] for f, _c in raw}) != 1:
+        return None
+    order = raw[0][0][0]
+
+    def items(f):
+        return [(code, sz) for code, sz in (struct_items(f) or [])]
+
+    def in_loop(c):
+        return any(isinstance(a, (ast.For, ast.While)) for a in A.ancestors(c) if a is not w.node and not isinstance(a, (ast.FunctionDef, ast.ClassDef)))
+    segs = [(items(f), c, in_loop(c)) for f, c in raw]
+    for rfmt in reader_formats:
+        want = items(rfmt)
+        if not want or rfmt[0] != order:
+            continue
+        for k in ([1] if not any(l for _i, _c, l in segs) else range(1, 65)):
+            got, args = [], []
+            first_loop = True
+            for its, c, l in segs:
+                reps = k if l else 1
+                if l and not first_loop:
+                    reps = 0  # several packs of one loop body are laid out per iteration below
+                if l and first_loop:
+                    body = [(i2, c2) for i2, c2, l2 in segs if l2]
+                    for _ in range(k):
+                        for i2, c2 in body:
+                            got += i2
+                            args += [ast.Name(id="<loop value>", ctx=ast.Load()) for x in i2 if x[0] != "x"]
+                    first_loop = False
+                    continue
+                if reps:
+                    got += its
+                    args += list(c.args[1:])
+            if got == want:
+                virt = ast.Call(func=ast.Name(id="pack", ctx=ast.Load()), args=[ast.Constant(value=rfmt)] + args, keywords=[])
+                first = raw[0][1]
+                ast.copy_location(virt, first)
+                for ch in ast.walk(virt):
+                    if not hasattr(ch, "_parent"):
+                        ch._parent = getattr(first, "_parent", None)  # type: ignore[attr-defined]
+                    if not hasattr(ch, "lineno"):
+                        ast.copy_location(ch, first)
+                return rfmt, virt, (k if any(l for _i, _c, l in segs) else 0)
+    return None
 
 
 def sweep_modules(ctx, rule: str, relpaths: List[str], armed: Optional[set] = None) -> None:
